@@ -34,7 +34,24 @@ def to_container(C, name, rng=None):
             return relayout(rng, C)
         return np.array(C)
     if name in SPARSE_MATRIX:
-        return SPARSE_MATRIX[name](np.array(C))
+        M = SPARSE_MATRIX[name](np.array(C))
+        if rng is not None and name in ('csr', 'csc', 'coo') and \
+                rng.random() < 0.4:
+            # explicitly stored zeros (as left behind by masking .data or by
+            # m[i, j] = 0): same matrix, different sparsity structure
+            A = np.array(C)
+            zi, zj = np.where(A == 0)
+            if len(zi):
+                pick = rng.choice(len(zi), size=min(len(zi), max(
+                    1, len(zi) // 3)), replace=False)
+                co = M.tocoo()
+                co = sp.coo_matrix(
+                    (np.concatenate([co.data, np.zeros(len(pick),
+                                                       dtype=co.data.dtype)]),
+                     (np.concatenate([co.row, zi[pick]]),
+                      np.concatenate([co.col, zj[pick]]))), shape=A.shape)
+                M = co if name == 'coo' else SPARSE_MATRIX[name](co)
+        return M
     return SPARSE_ARRAY[name](np.array(C))
 
 
